@@ -17,7 +17,7 @@ RULE = (
     "case = one history of 10-200 operations (get_label by class/int, get_class by int/class, "
     "`in` for classes and for integers in {known, len, len+5, -1, -len-1}, is_empty with/without "
     "label, truthful set_empty, add, iteration) on a real ClassDB over word classes, plain or "
-    "compressed; every answer is compared with a list+dict model. non-trivial = >= 8 distinct "
+    "compressed, a third of them with a coarse hash (unequal classes sharing hashes); every answer is compared with a list+dict model. non-trivial = >= 8 distinct "
     "classes stored, with repeated look-ups and unknown-key membership tests; distinct = histories"
 )
 LEVEL_TEXT = (
@@ -32,11 +32,14 @@ FLOORS = {
                                                "classdb.contains_checked": 15000,
                                                "classdb.is_empty_checked": 8000,
                                                "classdb.invariant_evaluated": 50000,
-                                               "c15.unknown_int_membership": 3000}},
+                                               "c15.unknown_int_membership": 3000,
+                                               "c15.histories_with_colliding_hashes": 250}},
     "thorough": {"nontrivial": 6000, "counters": {"classdb.get_label_checked": 600000,
                                                    "classdb.contains_checked": 300000,
                                                    "c15.unknown_int_membership": 60000}},
 }
+# W5: the repository's own test suite runs once under these ambient monitors (thorough tier)
+W5_MONITORS = ['classdb']
 CASE_TIMEOUT = {"quick": 30, "thorough": 60}
 SIZES = {"quick": 1200, "thorough": 24000}
 
@@ -45,11 +48,13 @@ def shard_setup(tier):
     m_classdb.install()
 
 
-def _pool(rng, compressed):
-    """A pool of classes with many near-duplicates (equal classes built twice)."""
+def _pool(rng, compressed, coarse=False):
+    """A pool of classes with many near-duplicates (equal classes built twice).  With
+    `coarse` the classes hash by prefix length only, so unequal classes share hashes."""
     pool = []
     base_cls = gen.rand_class(rng, bytes_p=0)
     base_cls["bytes"] = compressed
+    base_cls["hash"] = "coarse" if coarse else None
     for _ in range(rng.randint(4, 25)):
         d = dict(base_cls)
         r = rng.random()
@@ -60,6 +65,7 @@ def _pool(rng, compressed):
         elif r < 0.85:
             d = gen.rand_class(rng, bytes_p=0)
             d["bytes"] = compressed
+            d["hash"] = "coarse" if coarse else None
         pool.append(d)
     return pool
 
@@ -68,7 +74,8 @@ def gen_cases(tier, seed):
     for i in range(SIZES[tier]):
         rng = intuniv.rng_for(seed, "C15", i)
         compressed = rng.random() < 0.5
-        pool = _pool(rng, compressed)
+        coarse = intuniv.rng_for(seed, "C15/coarse", i).random() < 0.35
+        pool = _pool(rng, compressed, coarse)
         ops = []
         for _ in range(rng.randint(10, 200)):
             r = rng.random()
@@ -93,7 +100,7 @@ def gen_cases(tier, seed):
                 ops.append(["add", j])
             else:
                 ops.append(["iter"])
-        yield {"id": i, "compressed": compressed, "pool": pool, "ops": ops}
+        yield {"id": i, "compressed": compressed, "coarse": coarse, "pool": pool, "ops": ops}
 
 
 def run_case(case):
@@ -102,6 +109,9 @@ def run_case(case):
     cx = base.ctx()
     m_classdb.reset()
     ctype = words.WCB if case["compressed"] else words.WC
+    if case.get("coarse"):
+        ctype = words.WCBH if case["compressed"] else words.WCH
+        cx.count("c15.histories_with_colliding_hashes")
     db = ClassDB(ctype)
     model = m_classdb.model_of(db)
     rng = intuniv.rng_for("c15run", case["id"])
